@@ -46,7 +46,11 @@ Definition serde_name (uc:unicode) (p:position) (rule_str:option str) (s:str) : 
   end.
 
 (* Verdict on an observed typeshare result [o]: equal to serde's name.  Where serde_derive itself
-   rejects the program ([None]) the property says nothing. *)
+   rejects the program ([None]: its own variant[..1] / pascal[..1] byte slices panic inside the
+   derive macro on `__` or a non-ASCII first character under camelCase) there is no serde name to
+   agree with and the property says nothing.  typeshare no longer panics on those identifiers
+   (/repo fix of to_camel_case: `__` gives the empty name, `étoile` stays `étoile`); they remain
+   outside the domain for that reason only. *)
 Definition good_C16 (uc:unicode) (p:position) (rule_str:option str) (s:str) (o:outcome str) : bool :=
   match serde_name uc p rule_str s with
   | None => true
